@@ -530,8 +530,9 @@ impl<Aux> Vm<'_, Aux> {
                         .push(val)
                         .map_err(|_| ExecutionErrorPayload::Stackoverflow)
                         .map_err(|err| {
-                            // free the object on Stackoverflow
-                            self.runtime_data.free_object(obj.0);
+                            // the unreachable object stays in the object list and is reclaimed
+                            // by the next collection or by `clear` (freeing it here as well
+                            // released it twice)
                             payload_to_error(err, *instr_ptr, &self.runtime_data.call_stack)
                         })?;
                 }
@@ -552,8 +553,9 @@ impl<Aux> Vm<'_, Aux> {
                         .push(val)
                         .map_err(|_| ExecutionErrorPayload::Stackoverflow)
                         .map_err(|err| {
-                            // free the object on Stackoverflow
-                            self.runtime_data.free_object(obj.0);
+                            // the unreachable object stays in the object list and is reclaimed
+                            // by the next collection or by `clear` (freeing it here as well
+                            // released it twice)
                             payload_to_error(err, *instr_ptr, &self.runtime_data.call_stack)
                         })?;
                 }
@@ -574,8 +576,9 @@ impl<Aux> Vm<'_, Aux> {
                         .push(val)
                         .map_err(|_| ExecutionErrorPayload::Stackoverflow)
                         .map_err(|err| {
-                            // free the object on Stackoverflow
-                            self.runtime_data.free_object(obj.0);
+                            // the unreachable object stays in the object list and is reclaimed
+                            // by the next collection or by `clear` (freeing it here as well
+                            // released it twice)
                             payload_to_error(err, *instr_ptr, &self.runtime_data.call_stack)
                         })?;
                 }
